@@ -80,7 +80,9 @@ AtPointN(s, p) ==
                                                           /\ ~(s.calls[c].name \in Agents(s) /\ s.ag[s.calls[c].name].kind = "ext")})
       [] p = "watch.flowsCanceled"     -> IF s.pcW.pc = "w3" THEN 1 ELSE 0
       [] p = "server.sendResponse"      -> Cardinality({c \in DOMAIN s.calls : s.calls[c].api = "response" /\ s.calls[c].st = "issued"})
+      \* SendErrorResponse is entered by the /error handler and by the inner FastInvoke goroutine (default error)
       [] p = "server.sendErrorResponse" -> Cardinality({c \in DOMAIN s.calls : s.calls[c].api = "error" /\ s.calls[c].st = "issued"})
+                                           + Cardinality({k \in DOMAIN s.iv : s.iv[k].i = "deferr"})
       [] p = "init.afterRegisterCount" -> IF s.pcI.pc = "d2" /\ Len(s.toExec) = Cardinality(s.extFiles) THEN 1 ELSE 0
       [] OTHER -> 0
 \* the step behind p may be taken by a goroutine at p only if not all goroutines at p are held
@@ -410,7 +412,7 @@ FiiStartDo(s, k) == [s EXCEPT !.pcV = [pc |-> "v0", k |-> s.iv[k].id, src |-> k,
 \* invoke failed (not by a reset): default error to the invocation this call dispatched (tree after the fix
 \* of F-C02-1; the tree as found addressed whichever invocation was current and panicked when there was none);
 \* the cached init error response wins over the default body
-FiiDefaultErrorEn(s, k) == s.iv[k].i = "deferr"
+FiiDefaultErrorEn(s, k) == s.iv[k].i = "deferr" /\ Free(s, "server.sendErrorResponse")
 FiiDefaultErrorDo(s, k) ==
     LET body == IF s.srv.cached # NoCached THEN s.srv.cached ELSE s.iv[k].derr IN
     IF s.srv.inv = 0 \/ s.srv.inv # s.iv[k].id THEN [s EXCEPT !.iv[k].i = "sendfail"]     \* that invocation is gone
